@@ -16,6 +16,7 @@ import (
 	"encoding/json"
 	"fmt"
 	"math/big"
+	"os"
 	"path/filepath"
 	"sort"
 	"strings"
@@ -115,6 +116,8 @@ type sess struct {
 	lastAct map[string]uint64 // height of the account's last successful stake / unstake / vote
 	sysXfer bool              // a plain transfer to aergo.system was executed in this session
 	not39   bool              // a voteBP with a candidate length != 39 was executed
+	taint   string            // node sessions: class of the defect this history has run into (its consequences are counted, not failed)
+	how     string            // replay: how the op lines are executed
 }
 
 var dbSeq int
@@ -553,10 +556,21 @@ func (s *sess) sysTx(a *acct, amount *big.Int, payload string) string {
 func (s *sess) replay(extra ...string) map[string]interface{} {
 	return map[string]interface{}{"session": s.label, "fork_version": s.fv,
 		"ops": append(append([]string{}, s.ops...), extra...),
-		"how": "op lines of harness/c15 (see lean/Drv/C15.lean): executed in order on a fresh memorydb StateDB through chain.executeTx"}
+		"how": s.howText()}
+}
+
+func (s *sess) howText() string {
+	if s.how != "" {
+		return s.how
+	}
+	return "op lines of harness/c15 (see lean/Drv/C15.lean): executed in order on a fresh memorydb StateDB through chain.executeTx"
 }
 
 func (s *sess) fail(what string) {
+	if s.taint != "" {
+		s.run.Count("consequence-of:" + s.taint)
+		return
+	}
 	s.run.Fail(what, s.replay())
 }
 
@@ -1053,7 +1067,11 @@ func (s *sess) inv(v *view) {
 				} else {
 					rp := s.replay()
 					rp["orders_seen_in_64_rebuilds"] = s.rebuilds(v.ranks[is])
-					s.run.Fail(what, rp)
+					if s.taint != "" {
+						s.run.Count("consequence-of:" + s.taint)
+					} else {
+						s.run.Fail(what, rp)
+					}
 				}
 			}
 		}
@@ -1873,6 +1891,19 @@ func main() {
 	fee.EnableZeroFee()
 	types.InitGovernance("dpos", true)
 	fd := &findings{run: run, seen: map[string]bool{}}
+	only := os.Getenv("C15_ONLY") // debugging aid: "node" runs the node-level part alone
+	if only == "" || only == "node" {
+		nodeScripted(run, fd)
+		for i := 0; i < run.Pick(10, 120); i++ {
+			s := newNSess(run, fd, run.Rng.Fork(), fmt.Sprintf("node-random:%d", i))
+			s.randomSession(6 + run.Rng.Intn(run.Pick(8, 14)))
+			s.close()
+			run.Count("node-sessions")
+		}
+		if only == "node" {
+			return
+		}
+	}
 	scripted(run, fd)
 	pureOps(run)
 	nsess := run.Pick(60, 700)
